@@ -230,7 +230,12 @@ class RotatingFileHandler(FileHandler):
         in doRollover().
         """
         FileHandler.emit(self, record)
-        self.doRollover()
+        try:
+            self.doRollover()
+        except:
+            # like a failed write, a failed rotation must not propagate
+            # into whatever supervisord was doing when it logged
+            self.handleError()
 
     def _remove(self, fn): # pragma: no cover
         # this is here to service stubbing in unit tests
@@ -271,15 +276,20 @@ class RotatingFileHandler(FileHandler):
             return
 
         self.stream.close()
-        if self.backupCount > 0:
-            for i in range(self.backupCount - 1, 0, -1):
-                sfn = "%s.%d" % (self.baseFilename, i)
-                dfn = "%s.%d" % (self.baseFilename, i + 1)
-                if os.path.exists(sfn):
-                    self.removeAndRename(sfn, dfn)
-            dfn = self.baseFilename + ".1"
-            self.removeAndRename(self.baseFilename, dfn)
-        self.stream = open(self.baseFilename, 'wb')
+        mode = 'ab' # if the files cannot be rotated, keep appending
+        try:
+            if self.backupCount > 0:
+                for i in range(self.backupCount - 1, 0, -1):
+                    sfn = "%s.%d" % (self.baseFilename, i)
+                    dfn = "%s.%d" % (self.baseFilename, i + 1)
+                    if os.path.exists(sfn):
+                        self.removeAndRename(sfn, dfn)
+                dfn = self.baseFilename + ".1"
+                self.removeAndRename(self.baseFilename, dfn)
+            mode = 'wb'
+        finally:
+            # never leave the handler with a closed stream
+            self.stream = open(self.baseFilename, mode)
 
 class LogRecord:
     def __init__(self, level, msg, **kw):
